@@ -520,7 +520,17 @@ def law_vector_binary(ch):
         db = vec_dict(b)
         differ = set(da) != set(db)
         target = build_vector(va) if inplace else a
+        snap_b = {k: v.copy() for k, v in db.items()}
+        snap_a = {k: v.copy() for k, v in da.items()}
         ok, r = attempt((VEC_IBIN if inplace else VEC_BIN)[op], target, b)
+        for k, v in snap_b.items():
+            require(k in b.blocks and np.array_equal(np.asarray(b.blocks[k]), v)
+                    and len(b.blocks) == len(snap_b),
+                    sig + ":right-operand-modified", f"block {k!r}")
+        for k, v in snap_a.items():
+            require(k in a.blocks and np.array_equal(np.asarray(a.blocks[k]), v)
+                    and len(a.blocks) == len(snap_a),
+                    sig + ":left-operand-modified", f"block {k!r}")
         if not ok:
             require(
                 differ, sig + ":raised",
